@@ -198,6 +198,16 @@ def Formula.rename (names : List String) (pre suf : String) : Formula α → For
   | .exp a => .exp (a.rename names pre suf)
   | .log a => .log (a.rename names pre suf)
 
+/-- `Elementary.rename_elementary` on one name -/
+def renameName (names : List String) (pre suf : String) (n : String) : String :=
+  if names.contains n then pre ++ n ++ suf else n
+
+/-- the code as it stands (before the repair proposed as F-C19-1) walks the expression graph
+along every path: a `Variable` object reachable along `visits` paths is renamed `visits` times -/
+def renameVisited (names : List String) (pre suf : String) : Nat → String → String
+  | 0, n => n
+  | k + 1, n => renameVisited names pre suf k (renameName names pre suf n)
+
 /-- `set_of_elementary_expression(VARIABLE)` -/
 def Formula.vars : Formula α → List String
   | .const _ => []
